@@ -141,14 +141,85 @@ func CallsNamed(fn *ssa.Function, names ...string) []ssa.CallInstruction {
 	return Calls(fn, func(c ssa.CallInstruction) bool { return set[CalleeName(c)] })
 }
 
+// zeroRead: v reads a field of a local that nothing ever writes — `(T{}).f`,
+// the way the normal form spells "the zero value of f's type". It is the zero
+// constant of its type.
+func zeroRead(v ssa.Value) bool {
+	if f, isField := v.(*ssa.Field); isField {
+		if k, isConst := f.X.(*ssa.Const); isConst && k.Value == nil {
+			return true // field of the zero constant of a struct type
+		}
+		// (T{}).f as a value: field of the load of a never-written local
+		if ld, ok := f.X.(*ssa.UnOp); ok && ld.Op == token.MUL {
+			if a, ok := ld.X.(*ssa.Alloc); ok && a.Referrers() != nil {
+				for _, r := range *a.Referrers() {
+					if u, isLoad := r.(*ssa.UnOp); isLoad && u.Op == token.MUL {
+						continue
+					}
+					if _, isDbg := r.(*ssa.DebugRef); isDbg {
+						continue
+					}
+					return false
+				}
+				return true
+			}
+		}
+		return false
+	}
+	ld, ok := v.(*ssa.UnOp)
+	if !ok || ld.Op != token.MUL {
+		return false
+	}
+	fa, ok := ld.X.(*ssa.FieldAddr)
+	if !ok {
+		return false
+	}
+	a, ok := fa.X.(*ssa.Alloc)
+	if !ok || a.Referrers() == nil {
+		return false
+	}
+	for _, r := range *a.Referrers() {
+		f2, isFA := r.(*ssa.FieldAddr)
+		if !isFA {
+			if _, isDbg := r.(*ssa.DebugRef); isDbg {
+				continue
+			}
+			return false
+		}
+		if f2.Referrers() == nil {
+			continue
+		}
+		for _, r2 := range *f2.Referrers() {
+			if u, isLoad := r2.(*ssa.UnOp); !isLoad || u.Op != token.MUL {
+				return false
+			}
+		}
+	}
+	return true
+}
+
+// ZeroRead is exported for rules: v is the zero value written as a read of a never-written local.
+func ZeroRead(v ssa.Value) bool { return zeroRead(v) }
+
 // IsNilConst reports whether v is the nil constant.
 func IsNilConst(v ssa.Value) bool {
 	c, ok := v.(*ssa.Const)
+	if !ok && zeroRead(v) {
+		switch v.Type().Underlying().(type) {
+		case *types.Pointer, *types.Interface, *types.Slice, *types.Map, *types.Chan, *types.Signature:
+			return true
+		}
+	}
 	return ok && c.Value == nil
 }
 
 // ConstInt returns the integer value of a constant.
 func ConstInt(v ssa.Value) (int64, bool) {
+	if zeroRead(v) {
+		if b, isB := v.Type().Underlying().(*types.Basic); isB && b.Info()&types.IsInteger != 0 {
+			return 0, true
+		}
+	}
 	c, ok := v.(*ssa.Const)
 	if !ok || c.Value == nil || c.Value.Kind() != constant.Int {
 		return 0, false
@@ -158,6 +229,11 @@ func ConstInt(v ssa.Value) (int64, bool) {
 
 // ConstString returns the string value of a constant.
 func ConstString(v ssa.Value) (string, bool) {
+	if zeroRead(v) {
+		if b, isB := v.Type().Underlying().(*types.Basic); isB && b.Info()&types.IsString != 0 {
+			return "", true
+		}
+	}
 	c, ok := v.(*ssa.Const)
 	if !ok || c.Value == nil || c.Value.Kind() != constant.String {
 		return "", false
@@ -167,6 +243,11 @@ func ConstString(v ssa.Value) (string, bool) {
 
 // ConstBool returns the bool value of a constant.
 func ConstBool(v ssa.Value) (bool, bool) {
+	if zeroRead(v) {
+		if b, isB := v.Type().Underlying().(*types.Basic); isB && b.Info()&types.IsBoolean != 0 {
+			return false, true
+		}
+	}
 	c, ok := v.(*ssa.Const)
 	if !ok || c.Value == nil || c.Value.Kind() != constant.Bool {
 		return false, false
